@@ -1529,6 +1529,75 @@ pub fn asset_cases() -> Vec<ProgramCase> {
     out
 }
 
+/// Hand-written programs aimed at the naming and shape rules of the binding generators, one rule per program:
+/// every Rust / JavaScript / Motoko keyword as field, variant case, method and definition name; every spelling of a
+/// Result-like variant; tuple shapes; case conversions. Deterministic, so every run covers them.
+pub fn catalogue_cases() -> Vec<ProgramCase> {
+    const WORDS: &[&str] = &[
+        "self", "Self", "crate", "super", "_", "type", "fn", "async", "await", "dyn", "box", "try", "abstract", "move", "ref", "match",
+        "where", "mod", "use", "impl", "struct", "enum", "trait", "union", "static", "const", "unsafe", "extern", "loop", "while", "for",
+        "in", "if", "else", "let", "mut", "pub", "priv", "yield", "macro", "override", "typeof", "unsized", "virtual", "final", "become",
+        "do", "gen", "true", "false", "break", "continue", "return", "as", "class", "function", "var", "new", "delete", "this", "null",
+        "void", "with", "switch", "case", "default", "export", "import", "throw", "catch", "finally", "instanceof", "debugger",
+        "actor", "shared", "stable", "assert", "label", "object", "module", "not", "or", "and", "func", "query", "service", "principal",
+        "Ok", "Err", "ok", "err", "Option", "Vec", "Box", "String", "Result", "Some", "None", "candid", "serde", "std",
+    ];
+    let mut texts: Vec<(String, String)> = Vec::new();
+    // keywords as labels, 6 per program, in every position
+    for (k, chunk) in WORDS.chunks(6).enumerate() {
+        let fields: Vec<String> = chunk.iter().enumerate().map(|(i, w)| format!("\"{w}\" : {}", ["nat", "text", "opt nat8", "bool", "int", "principal"][i % 6])).collect();
+        let cases: Vec<String> = chunk.iter().enumerate().map(|(i, w)| if i % 2 == 0 { format!("\"{w}\"") } else { format!("\"{w}\" : nat") }).collect();
+        let meths: Vec<String> = chunk.iter().map(|w| format!("\"{w}\" : (R) -> (V) query")).collect();
+        texts.push((
+            format!("keywords-as-labels-{k}"),
+            format!("type R = record {{ {} }};\ntype V = variant {{ {} }};\nservice : {{ {} }}", fields.join("; "), cases.join("; "), meths.join("; ")),
+        ));
+    }
+    // keywords as definition names (those Candid accepts unquoted as identifiers)
+    for (k, chunk) in WORDS.chunks(8).enumerate() {
+        let ok: Vec<&&str> = chunk.iter().filter(|w| is_ident(w) && !CANDID_TOKENS.contains(w) && !CANDID_PRIMS.contains(w) && **w != "_").collect();
+        if ok.is_empty() {
+            continue;
+        }
+        let defs: Vec<String> = ok.iter().enumerate().map(|(i, w)| format!("type {w} = record {{ f{i} : nat; g : opt {} }};", ok[(i + 1) % ok.len()])).collect();
+        let meths: Vec<String> = ok.iter().enumerate().map(|(i, w)| format!("m{i} : ({w}) -> ({w})")).collect();
+        texts.push((format!("keywords-as-definitions-{k}"), format!("{}\nservice : {{ {} }}", defs.join("\n"), meths.join("; "))));
+    }
+    // Result-like variants in every spelling, named and anonymous
+    let oks = ["Ok", "ok", "OK", "Okay"];
+    let errs = ["Err", "err", "ERR", "Error"];
+    for (i, o) in oks.iter().enumerate() {
+        for (j, e) in errs.iter().enumerate() {
+            texts.push((
+                format!("result-like-{o}-{e}"),
+                format!(
+                    "type r{i}{j} = variant {{ {o} : nat; {e} : text }};\ntype s{i}{j} = variant {{ {o}; {e} : text }};\ntype t{i}{j} = variant {{ {o} : nat; {e} : text; other }};\nservice : {{ named : (r{i}{j}, s{i}{j}) -> (t{i}{j}); anon : () -> (variant {{ {o} : record {{ a : nat }}; {e} : text }}) }}"
+                ),
+            ));
+        }
+    }
+    // tuple and option shapes
+    texts.push(("tuples".into(), "type p = record { nat; text };\ntype q = record { 0 : nat; 2 : text };\ntype u = record { 1 : nat };\ntype o = opt opt nat;\ntype e = record {};\nservice : { f : (p, q, u) -> (o, e, record { nat; record { text; bool } }) }".into()));
+    // case conversions of definition and field names
+    texts.push(("case-conversions".into(), "type my_type = record { myField : nat; my_field2 : text; MYFIELD : bool };\ntype MyType2 = variant { caseOne; case_two : nat; CASE3 };\ntype HTTPRequest = record { urlPath : text };\ntype x1_y2 = nat;\nservice : { getValue : (my_type) -> (MyType2); get_http : (HTTPRequest) -> (x1_y2) query }".into()));
+    let mut out = Vec::new();
+    for (name, text) in texts {
+        let t2 = text.clone();
+        let r = crate::ctx::catch(move || -> Result<(candid::TypeEnv, Option<candid::types::Type>), String> {
+            let ast: candid_parser::syntax::IDLProg = t2.parse().map_err(|e| format!("parse: {e}"))?;
+            let mut env = candid::TypeEnv::new();
+            let actor = candid_parser::typing::check_prog(&mut env, &ast).map_err(|e| format!("check: {e}"))?;
+            Ok((env, actor))
+        });
+        if let Ok(Ok((env, actor))) = r {
+            if let Ok(c) = case_from_checked(text, None, &env, &actor, &format!("catalogue:{name}")) {
+                out.push(c);
+            }
+        }
+    }
+    out
+}
+
 /// The real side of a case: parse + check with candid (None = rejected; monitors count it as excluded).
 pub struct Checked {
     pub env: candid::TypeEnv,
